@@ -13,101 +13,66 @@ import (
 // ---------------------------------------------------------------- PQ1
 
 // RulePQ1: the scanner judges a parameter by its unquoted text. The scanner keeps the
-// parameter lexemes of the directive it has just read (a []*Lexeme field) and looks at them
-// to decide how the body that follows is to be read (a schema, a regex, nothing). Every
-// such look goes through Unquote() first, so that `regex` and `"regex"` decide alike; a
+// parameter lexemes of the directive it has just read and looks at their values to decide
+// how the body that follows is to be read (a schema, a regex, nothing) - the only place in
+// the package where the text of a lexeme is read. Every such look goes through Unquote()
+// first, so that `regex` and `"regex"` decide alike; a
 // comparison of the lexeme's value as written sees the quotes and treats the quoted
 // spelling as something else.
 func RulePQ1(c *Ctx) {
-	sc := c.Run.Begin("PQ1", "in package scanner, every value taken from a lexeme of the remembered directive parameters is unquoted before anything else is done with it", 3)
+	sc := c.Run.Begin("PQ1", "in package scanner, every value taken from a lexeme (Lexeme.Value) is unquoted before anything else is done with it", 1)
 	defer sc.End()
 	pk := c.P.Pkg("scanner")
-	lexT := c.Named("scanner", "Lexeme")
-	scanT := c.Named("scanner", "Scanner")
-	if pk == nil || lexT == nil || scanT == nil {
-		sc.Undecided("anchors", "-", "unresolved anchor: scanner.Lexeme / scanner.Scanner")
+	valueM := c.Func("scanner", "Lexeme.Value")
+	if pk == nil || valueM == nil {
+		sc.Undecided("anchors", "-", "unresolved anchor: scanner.Lexeme.Value")
 		return
 	}
 	info := pk.TypesInfo
-	// the fields of Scanner that hold parameter lexemes: []*Lexeme
-	fields := map[types.Object]bool{}
-	if st, ok := scanT.Underlying().(*types.Struct); ok {
-		for i := 0; i < st.NumFields(); i++ {
-			if sl, ok := st.Field(i).Type().Underlying().(*types.Slice); ok {
-				if p, ok := sl.Elem().(*types.Pointer); ok && types.Identical(p.Elem(), lexT) {
-					fields[st.Field(i)] = true
-				}
-			}
-		}
-	}
-	if len(fields) == 0 {
-		sc.Undecided("anchors", "-", "the scanner keeps no []*Lexeme field")
-		return
-	}
-	valueM := c.Func("scanner", "Lexeme.Value")
 	c.P.Funcs(func(p *pkgT, fd *ast.FuncDecl) {
 		if p != pk {
 			return
 		}
 		cf := c.CFG(pk, fd.Body)
+		parents := map[ast.Node]ast.Node{}
+		var stack []ast.Node
+		ast.Inspect(fd.Body, func(y ast.Node) bool {
+			if y == nil {
+				stack = stack[:len(stack)-1]
+				return true
+			}
+			if len(stack) > 0 {
+				parents[y] = stack[len(stack)-1]
+			}
+			stack = append(stack, y)
+			return true
+		})
 		n := 0
-		ast.Inspect(fd.Body, func(x ast.Node) bool {
-			rs, ok := x.(*ast.RangeStmt)
-			if !ok || rs.Value == nil {
-				return true
-			}
-			sel, ok := ast.Unparen(rs.X).(*ast.SelectorExpr)
-			if !ok || !fields[info.ObjectOf(sel.Sel)] {
-				return true
-			}
-			vid, ok := rs.Value.(*ast.Ident)
+		ast.Inspect(fd.Body, func(y ast.Node) bool {
+			call, ok := y.(*ast.CallExpr)
 			if !ok {
 				return true
 			}
-			lex := info.ObjectOf(vid)
-			// every lex.Value() in the loop body
-			parents := map[ast.Node]ast.Node{}
-			var stack []ast.Node
-			ast.Inspect(rs.Body, func(y ast.Node) bool {
-				if y == nil {
-					stack = stack[:len(stack)-1]
-					return true
-				}
-				if len(stack) > 0 {
-					parents[y] = stack[len(stack)-1]
-				}
-				stack = append(stack, y)
+			if f := Callee(info, call); f == nil || f.Origin() != valueM.Origin() {
 				return true
-			})
-			ast.Inspect(rs.Body, func(y ast.Node) bool {
-				call, ok := y.(*ast.CallExpr)
-				if !ok || Callee(info, call) != valueM {
-					return true
+			}
+			n++
+			key := fmt.Sprintf("%s:Value#%d", c.P.DeclName(fd), n)
+			uses := valueUses(info, cf, fd.Body, call, parents)
+			bad := ""
+			for _, u := range uses {
+				if u != "Unquote" {
+					bad = u
 				}
-				if id, ok := ast.Unparen(Recv(call)).(*ast.Ident); !ok || info.ObjectOf(id) != lex {
-					return true
-				}
-				n++
-				key := fmt.Sprintf("%s:Value#%d", c.P.DeclName(fd), n)
-				// what is done with the value: the selector applied to it, directly or
-				// through a local it is bound to
-				uses := valueUses(info, cf, rs.Body, call, parents)
-				bad := ""
-				for _, u := range uses {
-					if u != "Unquote" {
-						bad = u
-					}
-				}
-				switch {
-				case len(uses) == 0:
-					sc.Holds(key, c.P.Pos(call.Pos()), "the value is not looked at")
-				case bad == "":
-					sc.Holds(key, c.P.Pos(call.Pos()), "unquoted first")
-				default:
-					sc.Violation(key, c.P.Pos(call.Pos()), "the parameter's value is used as written ("+bad+") without Unquote(): the quoted spelling of the same parameter is judged differently from the bare one, so the body that follows is read as another notation")
-				}
-				return true
-			})
+			}
+			switch {
+			case len(uses) == 0:
+				sc.Holds(key, c.P.Pos(call.Pos()), "the value is not looked at")
+			case bad == "":
+				sc.Holds(key, c.P.Pos(call.Pos()), "unquoted first")
+			default:
+				sc.Violation(key, c.P.Pos(call.Pos()), "the parameter's value is used as written ("+bad+") without Unquote(): the quoted spelling of the same parameter is judged differently from the bare one, so the body that follows is read as another notation")
+			}
 			return true
 		})
 	})
